@@ -2,11 +2,15 @@
    ExtrOcamlBasic only (bool, option, list, pair, unit, sumbool -> OCaml's);
    N, Z, positive, nat stay inductive. No Extract Constant / Extract Inductive of our own. *)
 From RE Require Import Base Resp State Exec Exec2 Bits Dispatch RespParse Dict.
+From RE Require Wait.
 Require Import ExtrOcamlBasic.
 Definition dict_unit := dict unit.
 Definition dict_empty : dict unit := empty_dict.
 Definition dict_store (d : dict unit) (k : bytes) (h : N) : outcome (dict unit) := store d k h tt.
 Definition dict_remove (d : dict unit) (k : bytes) (h : N) : dict unit * bool := remove d k h.
 Definition dict_scan (d : dict unit) (cursor : N) (count : nat) : N * list (item unit) := scan_call d (fun _ => true) cursor count.
-Extraction "model.ml" step wire close_conn state0 ser to2 o_st o_reply o_block get_db get_conn
+(* the block/wake protocol (Wait.v), stepped label by label against the emulator *)
+Definition w_cfg0 : Wait.cfg := Wait.cfg0.
+Definition w_step : Wait.cfg -> Wait.label -> option Wait.cfg := Wait.wstep.
+Extraction "model.ml" w_cfg0 w_step step wire close_conn state0 ser to2 o_st o_reply o_block get_db get_conn
   parse conn_run enc_cmd dict_empty dict_store dict_remove dict_scan d_log d_slots d_count d_removals it_key it_hash.
